@@ -1382,12 +1382,66 @@ fpd_setup_case(Runner& R, const shared_ptr<ProjDataInfo>& factors_pdi, bool expe
 }
 
 
+// If a class that refuses a kind of data today (error() in set_up) ever accepts it, the property's statement must hold for
+// it there: undo multiplies every bin by one factor (the same for every TOF position: the factors are not TOF), equal to
+// the reported efficiency where one is reported, and apply inverts it.
+static void
+accepted_must_satisfy_property(Runner& R, const BinNormalisation& n, const shared_ptr<DataSymmetriesForViewSegmentNumbers>& sym,
+                               const std::string& what)
+{
+  const Geom& g = R.g;
+  Route route{ "rv", false, sym };
+  PD work(g.exam, g.pdi);
+  std::vector<float> U, AU;
+  fill_from(g, work, R.d2);
+  bool fine = run_route(n, route, g, work, false);
+  U = flatten(g, work);
+  fine = fine && run_route(n, route, g, work, true);
+  AU = flatten(g, work);
+  ++g_checks;
+  if (!fine)
+    {
+      oracle_fail(what + ": set_up succeeded but apply/undo threw");
+      return;
+    }
+  int bad = -1;
+  std::map<std::vector<int>, double> factor_at_tof0;
+  for (std::size_t i = 0; i < g.nbins(); ++i)
+    {
+      if (R.d2[i] == 0.F)
+        continue;
+      const Row& r = g.rows[i / g.nt];
+      const int tang = g.tmin + static_cast<int>(i % g.nt);
+      const double f = static_cast<double>(U[i]) / R.d2[i];
+      if (f >= 1.e-20 && !close_rel(AU[i], R.d2[i], 1e-5))
+        bad = static_cast<int>(i);
+      try
+        {
+          Bin b(r.seg, r.view, r.ax, tang, r.tof);
+          if (!close_rel(n.get_bin_efficiency(b), f, 1e-5))
+            bad = static_cast<int>(i);
+        }
+      catch (...)
+        {}
+      const std::vector<int> key{ r.seg, r.view, r.ax, tang };
+      auto it = factor_at_tof0.find(key);
+      if (it == factor_at_tof0.end())
+        factor_at_tof0[key] = f;
+      else if (!close_rel(it->second, f, 1e-5))
+        bad = static_cast<int>(i);
+    }
+  if (bad >= 0)
+    oracle_fail(what + ": set_up succeeded but undo/apply/get_bin_efficiency do not agree on one factor per bin (the same for all TOF "
+                + "positions) at " + bin_name(g, bad));
+}
+
 // set_up decisions that are refusals by error(): the attenuation class on TOF data
 static void
 atten_setup_case(Runner& R)
 {
   shared_ptr<VoxelsOnCartesianGrid<float>> mu = vh::make_image(*R.g.pdi, 1.F, 5, -1);
-  mu->fill(0.096F);
+  for (auto it = mu->begin_all(); it != mu->end_all(); ++it)
+    *it = R.rnd(0.02F, 0.3F);
   shared_ptr<const DiscretisedDensity<3, float>> mu_c(mu);
   BinNormalisationFromAttenuationImage n(mu_c);
   bool ok = false;
@@ -1400,6 +1454,10 @@ atten_setup_case(Runner& R)
       ok = false;
     }
   op("setup atten " + std::to_string(R.g.pdi->get_num_tof_poss()), ok ? "ok" : "err");
+  if (ok && R.g.pdi->get_num_tof_poss() > 1)
+    accepted_must_satisfy_property(
+        R, n, shared_ptr<DataSymmetriesForViewSegmentNumbers>(new DataSymmetriesForBins_PET_CartesianGrid(R.g.pdi, mu)),
+        "BinNormalisationFromAttenuationImage on TOF data");
 }
 
 // ... and the components class on TOF data, data with view mashing, data with axial compression
@@ -1408,7 +1466,12 @@ comp_setup_case(Runner& R)
 {
   BinNormalisationPETFromComponents n;
   n.allocate(R.g.pdi, true, false, false);
-  n.crystal_efficiencies().fill(1.F);
+  {
+    DetectorEfficiencies& e = n.crystal_efficiencies();
+    for (int r = e.get_min_index(); r <= e.get_max_index(); ++r)
+      for (int d = e[r].get_min_index(); d <= e[r].get_max_index(); ++d)
+        e[r][d] = R.rnd(0.5F, 2.F);
+  }
   bool ok = false;
   try
     {
@@ -1419,10 +1482,14 @@ comp_setup_case(Runner& R)
       ok = false;
     }
   auto pc = dynamic_cast<const ProjDataInfoCylindrical*>(R.g.pdi.get());
+  const bool tof = R.g.pdi->is_tof_data(), mash = pc->get_view_mashing_factor() > 1, span = pc->get_max_ring_difference(0) > 0;
   std::ostringstream o;
-  o << "setup comp " << (R.g.pdi->is_tof_data() ? 1 : 0) << " " << (pc->get_view_mashing_factor() > 1 ? 1 : 0) << " "
-    << (pc->get_max_ring_difference(0) > 0 ? 1 : 0);
+  o << "setup comp " << (tof ? 1 : 0) << " " << (mash ? 1 : 0) << " " << (span ? 1 : 0);
   op(o.str(), ok ? "ok" : "err");
+  if (ok && (tof || mash || span))
+    accepted_must_satisfy_property(R, n,
+                                   shared_ptr<DataSymmetriesForViewSegmentNumbers>(new TrivialDataSymmetriesForBins(R.g.pdi)),
+                                   "BinNormalisationPETFromComponents on TOF / view-mashed / axially compressed data");
 }
 
 // ---------------------------------------------------------------- the set-up state is checked on use, for every class
@@ -1507,7 +1574,7 @@ main(int argc, char** argv)
   g_out = std::fopen(argv[4], "w");
   g_orc = std::fopen((std::string(argv[4]) + ".oracle").c_str(), "w");
 
-  const int rounds = thorough ? 5 : 1;
+  const int rounds = thorough ? 12 : 2;
   for (int round = 0; round < rounds; ++round)
     {
       // ------------------------------------------------------------------ A/B: non-TOF, span 1 (all classes); odd and even tangential size
